@@ -145,6 +145,13 @@ func (w *World) exec(cs *clientState, idx int, op Op) *Rec {
 				// an older answer of the leader applied late (two follower reads finishing out of order)
 				rev -= uint64(op.Limit)
 			}
+			if op.Ms > 0 {
+				// the leader has answered, the follower has not applied the answer yet (its reader goroutine is
+				// between the HTTP response and SetCurrentRevision): the harness applies it later
+				w.HeldSyncs = append(w.HeldSyncs, HeldSync{Node: op.Node, Rev: rev})
+				s.Note("follower %d holds the leader's answer %d", op.Node, rev)
+				return nil
+			}
 			w.Nodes[op.Node].B.SetCurrentRevision(rev)
 			s.Note("follower %d synced to %d", op.Node, rev)
 		}
